@@ -8,6 +8,34 @@ def classify(rec, v):
     return "C05/render-mismatch"
 
 
+def hidden_template_family():
+    """the hidden-template idiom: a <use> of something that lives inside a display:none container (or is
+    hidden itself only through an ancestor) - display is not inherited, the instance renders"""
+    docs = []
+    shapes = [("rect", [2, 3, 6, 5, -1, -1]), ("polygon", [2, 2, 12, 3, 5, 11])]
+    for tag, g in shapes:
+        for via in (0, 1):
+            for container in ("g", "gg", "defs-g"):
+                for use_at in ([], [["fill", "blue", 0]], [["opacity", 1, 0]], [["display", "inline", via]]):
+                    nodes = []
+                    d = 1
+                    if container == "defs-g":
+                        nodes.append({"d": 1, "tag": "defs", "id": "", "at": [], "g": [], "ref": ""})
+                        d = 2
+                    nodes.append({"d": d, "tag": "g", "id": "", "at": [["display", "none", via]], "g": [], "ref": ""})
+                    d += 1
+                    if container == "gg":
+                        nodes.append({"d": d, "tag": "g", "id": "", "at": [["fill", "lime", 0]], "g": [], "ref": ""})
+                        d += 1
+                    nodes.append({"d": d, "tag": tag, "id": "t", "at": [["fill", "red", 0]] if container != "gg" else [],
+                                  "g": g, "ref": ""})
+                    nodes.append({"d": 1, "tag": "use", "id": "", "g": [3, 1], "ref": "t", "at": list(use_at)})
+                    nodes.append({"d": 1, "tag": "rect", "id": "", "at": [["fill", "black", 0]], "g": [9, 9, 5, 5, -1, -1],
+                                  "ref": ""})
+                    docs.append({"vb": [0, 0, 16, 16], "view": [0, 0, 16, 16], "root": [], "nodes": nodes})
+    return docs
+
+
 def run(out, tier):
     rendercheck.run_focus(
         out, "C05", "paint", tier, 1200, 12000,
@@ -15,7 +43,9 @@ def run(out, tier):
         "fill-rule, display as attribute and/or style declaration, conflicting attribute+style, on "
         "shapes, nested groups, root and use, overlapping catalogue geometry); non-trivial = the "
         "source paints something and TLC compared the normalised nested paint stacks (paint, alpha "
-        "exponent, opacity-group structure) of source and output on the sample lattice", classify)
+        "exponent, opacity-group structure) of source and output on the sample lattice; plus the "
+        "hidden-template family (use of a target inside a display:none container)", classify,
+        extra_docs=hidden_template_family())
 
 
 replay = rendercheck.replay
